@@ -130,7 +130,14 @@ def keyword_from_hash(kw_hash: int, name: str, ns: str | None = None) -> Keyword
 
     with _LOCK:
         found = _INTERN.val_at(kw_hash)
-        if found:
+        if found is not None and found._name == name and found._ns == ns:
+            return found
+        # Either there is no such entry or `kw_hash` names another keyword. Hashes which
+        # were baked into cached bytecode come from a process which may have used a
+        # different string hash seed, so do not trust `kw_hash`: intern by the real hash.
+        kw_hash = hash_kw(name, ns)
+        found = _INTERN.val_at(kw_hash)
+        if found is not None and found._name == name and found._ns == ns:
             return found
         kw = Keyword(name, ns=ns)
         _INTERN = _INTERN.assoc(kw_hash, kw)
